@@ -103,7 +103,7 @@ def run_case(case) -> Outcome:
     tdt = getattr(torch, dtype)
     d = case["dice"]
     dual = P.run_dual(prog)
-    if not dual.max_abs < 1e6:
+    if not jdcheck.scale_ok(dtype, dual.max_abs):
         out.excluded = "values-or-tangents-exceed-1e6"
         return out
     out.cls(case["kind"], "fault:" + fault)
